@@ -666,6 +666,10 @@ type vPre struct {
 	votes                map[uint64]bool
 	nctx                 int
 	selfVoter            bool
+	// leader's match index per member, and the only acknowledgement (sender,
+	// index) delivered in this step, if any
+	match            map[uint64]uint64
+	ackFrom, ackIndex uint64
 }
 
 func vRecord(r *raft) *vPre {
@@ -675,6 +679,12 @@ func vRecord(r *raft) *vPre {
 		p.votes[k] = v
 	}
 	_, p.selfVoter = r.remotes[r.replicaID]
+	p.match = map[uint64]uint64{}
+	for _, m := range []map[uint64]*remote{r.remotes, r.nonVotings, r.witnesses} {
+		for id, rm := range m {
+			p.match[id] = rm.match
+		}
+	}
 	return p
 }
 
@@ -713,6 +723,23 @@ func vFrame(p *vPre, r *raft, c vCluster, tag string) {
 	// C06/R5 released read indexes never exceed the commit index
 	for _, rr := range r.readyToRead {
 		vAssert(rr.Index <= post.committed, tag+"R5-ready-le-committed")
+	}
+	// C02 (truthful match): while a replica stays leader of a term, its match
+	// index for another member only ever moves forward, and only to an index
+	// that member acknowledged in this step
+	if p.state == leader && r.state == leader && r.term == p.term {
+		for id, was := range p.match {
+			rm := vRemoteOf(r, id)
+			if rm == nil || id == r.replicaID {
+				continue
+			}
+			vAssert(rm.match >= was, tag+"L4-match-never-decreases")
+			if id == p.ackFrom {
+				vAssert(vOr(rm.match == was, rm.match == p.ackIndex), tag+"L4-match-moves-only-to-the-acknowledged-index")
+			} else {
+				vAssert(rm.match == was, tag+"L4-match-moves-only-through-an-acknowledgement")
+			}
+		}
 	}
 	// outgoing messages
 	for i := range r.msgs {
